@@ -136,6 +136,13 @@ static int open_common(const char *path, int flags, mode_t mode, int which, int 
   tick();
   const char *rel = path + fs_root_len;
   struct plan *p = find_plan("open", 0, path);
+  if (p && !strcmp(p->action, "alt")) {
+    char alt[512]; snprintf(alt, sizeof alt, "%s.alt", path);
+    int fd = real_open(alt, flags, mode);
+    trace("open %s flags=r -> alt %s\n", rel, fd >= 0 ? "ok" : "fail");
+    if (fd >= 0 && fd < MAXFD) { free(fd_path[fd]); fd_path[fd] = strdup(path); }
+    return fd;
+  }
   if (p) {
     int e = !strcmp(p->action, "enoent") ? ENOENT : !strcmp(p->action, "eisdir") ? EISDIR : !strcmp(p->action, "emfile") ? EMFILE : !strcmp(p->action, "eintr") ? EINTR : EIO;
     if (!strcmp(p->action, "exit")) { trace("exit open %s\n", rel); _exit((int)p->arg); }
